@@ -15,6 +15,7 @@ CONSTANTS
   DrainMode = "raw"
   Strict = TRUE
   WithServe = TRUE
+  Hist = FALSE
 INVARIANTS C18_NoLeak C18_ServeWaits C18_SocketsFollowHandler
 INVARIANTS C15_Language C15_AuthOnlyIfAuthenticated C15_ProbeIffFailed C15_ProbeBytes C15_Status C15_OkIffComplete C15_Counters
 PROPERTIES C18_Isolation
